@@ -21,11 +21,12 @@ SPEC = {
                      'dynamic add/removeHandler; register/unregister incl. from handlers) x histories of fires and ticks; '
                      'non-trivial = >=3 dispatches and a structural change'),
     'C02': dict(manual=[(['prio', 'stop', 'flushact', 'values'], 750), (['prio', 'stop', 'gen', 'values', 'flags'], 300)], run=[],
-                kinds={'B', 'D', 'I', 'O'}, opts={},
+                multichan_patterns=150, kinds={'B', 'D', 'I', 'O'}, opts={},
                 nontrivial=lambda w: len([e for e in w.log if e[0] == 'D']) >= 4,
                 rule='random programs of fire(priority=p) from outside and from handlers (nesting <=5, priorities from '
                      '{-2,-1,-.5,0,.5,1,2}), handler priorities from the same grid, stop() at random handlers, flush() from '
-                     'handlers; non-trivial = >=4 dispatches'),
+                     'handlers; plus events delivered on 2-3 channels at once (success_channels) with handlers of interleaved '
+                     'priorities spread over those channels; non-trivial = >=4 dispatches'),
     'C04': dict(manual=[(['prio', 'values', 'gen', 'flags', 'stop'], 900), (['values', 'gen', 'flags', 'chan'], 300)], run=[],
                 kinds={'F', 'D', 'I', 'P'}, opts=dict(values=True),
                 nontrivial=lambda w: any(e.startswith('P') for e in w.log) or any(':3' in e or '906' in e for e in w.log),
@@ -75,6 +76,8 @@ def scenarios(ctx, prop):
         out.append(core_gen.gen_detach_pattern(ctx.rng))
     for _ in range(sp.get('cache_patterns', 0) * ctx.scale):
         out.append(core_gen.gen_cache_pattern(ctx.rng))
+    for _ in range(sp.get('multichan_patterns', 0) * ctx.scale):
+        out.append(core_gen.gen_multichan_pattern(ctx.rng))
     for feats, n in sp['run']:
         for _ in range(max(1, n * ctx.scale // (1 if ctx.scale == 1 else 2))):
             out.append(core_gen.gen_run_scenario(ctx.rng, feats))
